@@ -123,7 +123,7 @@ def run_case(seed, i, tier):
         data = fixtures.load(name)
     cont = rng.choice(("plain", "plain", "gz", "bz2", "xz", "lz4", "tar"))
     if cont == "tar":
-        stored = world.to_tar([("e.evtx", data, 1600000000)], rng.choice(("ustar", "gnu", "pax")))
+        stored = world.to_tar([(world.member_path(rng, "e.evtx"), data, 1600000000)], rng.choice(("ustar", "gnu", "pax")))
         path = "ev.tar"
     else:
         stored, _ = world.random_container(rng, cont, data, 1600000000, "e.evtx") if cont != "plain" else (data, None)
